@@ -552,8 +552,12 @@ func (sc *serverConn) handleRequestStream(st *stream) error {
 	}
 	defer rw.close()
 	if reqInfo.NeedsContinue {
-		req.Body.(*bodyReader).send100Continue = func() {
-			rw.WriteHeader(100)
+		// A request that announces no body (Content-Length: 0 and no
+		// trailers) has http.NoBody: there is nothing to continue.
+		if br, ok := req.Body.(*bodyReader); ok {
+			br.send100Continue = func() {
+				rw.WriteHeader(100)
+			}
 		}
 	}
 
